@@ -1,6 +1,6 @@
 (* Case runner for C06. *)
 From Coq Require Import QArith.
-From PV Require Import M_Filter M_Prune M_TagFilter S_Filter S_Prune R_Filter Gen.Gen_UnitTable.
+From PV Require Import M_Filter M_Prune M_TagFilter S_Filter S_Prune S_TagFilter R_Filter Gen.Gen_UnitTable.
 Open Scope Z_scope.
 Open Scope string_scope.
 
@@ -33,28 +33,8 @@ Definition run_C06 (i : term) : term :=
 
 Definition eqv_C06 (i m o : term) : bool := term_eqb m o.
 
-(* the stages of applyFocus on the model, for the class predicates of the later stages *)
-Definition stages (tbl : term) (p : profile) (units : list (string * string)) (c : af_cfg) : profile * profile :=
-  let M := tbl_M tbl in let V := tbl_V tbl in
-  let p1 := fst (filter_samples_by_name M p (opt_rx (c_focus c)) (opt_rx (c_ignore c)) (opt_rx (c_hide c)) (opt_rx (c_show c))) in
-  let p2 := fst (show_from M p1 (opt_rx (c_showfrom c))) in
-  let p3 := fst (filter_samples_by_tag p2 (tf_fun (compile_tag_filter M V uts units (c_tagfocus c)))
-                                          (tf_fun (compile_tag_filter M V uts units (c_tagignore c)))) in
-  let p4 := fst (filter_tags_by_name M p3 (opt_rx (c_tagshow c)) (opt_rx (c_taghide c))) in
-  (p1, p4).
-
-(* the specification of the whole pipeline: the composition of the per-filter rules *)
-Definition spec_pipeline (tbl : term) (p : profile) (units : list (string * string)) (c : af_cfg) : list fsample :=
-  let M := tbl_M tbl in let V := tbl_V tbl in
-  let s1 := spec_name M p (opt_rx (c_focus c)) (opt_rx (c_ignore c)) (opt_rx (c_hide c)) (opt_rx (c_show c)) (fsamples p) in
-  let s2 := spec_show_from M p (opt_rx (c_showfrom c)) s1 in
-  let s3 := spec_tag (tf_fun (compile_tag_filter M V uts units (c_tagfocus c)))
-                     (tf_fun (compile_tag_filter M V uts units (c_tagignore c))) s2 in
-  let s4 := spec_tags_by_name M (opt_rx (c_tagshow c)) (opt_rx (c_taghide c)) s3 in
-  match opt_rx (c_prunefrom c) with
-  | Some re => spec_prune_from M p re s4
-  | None => s4
-  end.
+Definition stages (tbl : term) := af_stages (tbl_M tbl) (tbl_V tbl) uts.
+Definition spec_pipeline (tbl : term) := spec_apply_focus (tbl_M tbl) (tbl_V tbl) uts.
 
 Definition all_rx_ok (tbl : term) (c : af_cfg) : bool :=
   let V := tbl_V tbl in
